@@ -606,6 +606,7 @@ func isMetricBinOpAt(toks []tok, i int) bool {
 
 func c05CheckNegative(r *vkit.Run, in c05Input, text string, mustReject bool) {
 	in.Text = text
+	r.Begin("C05/negative", in)
 	_, err, pan := parseSafe(text)
 	r.Eval()
 	r.Step(1)
